@@ -141,16 +141,16 @@ def run_seq(ops, impl='diskcache', via='Index', seed=0, tid=1):
                         if impl != 'stdlib':
                             b.__exit__(None, None, None)
                     elif blocks:
-                        exc = RuntimeError('abort')     # passes through every enclosing block
+                        exc = RuntimeError('abort') if len(ev) % 2 else KeyboardInterrupt()     # passes through every enclosing block
                         while blocks:
                             b = blocks.pop()
                             if impl == 'stdlib':
                                 x = b
                             else:
                                 try:
-                                    if b.__exit__(RuntimeError, exc, None):
+                                    if b.__exit__(type(exc), exc, None):
                                         ret = R('swallowed')
-                                except RuntimeError:
+                                except (RuntimeError, KeyboardInterrupt):
                                     pass
                 except Exception as exc:
                     ret = R(type(exc).__name__)
